@@ -218,7 +218,7 @@ func (g *Gen) formatString(format string) string {
 		if bad {
 			return g.pick("://bad", "http://[::1", "%zz", "http://a b")
 		}
-		return g.pick("http://127.0.0.1:9095", "http://127.0.0.1:9096", "https://127.0.0.1:8443/x", "127.0.0.1:80", "http://[::1]:8080", "http://localhost", "/rel", "http://]")
+		return g.pick(URLShapes...)
 	case "uri":
 		if bad {
 			return g.pick("::", "not a uri", "%")
@@ -1196,3 +1196,10 @@ func IntLeaves(t reflect.Type) [][]PathStep {
 	}
 	return out
 }
+
+// URLShapes: shapes of server URLs that url.Parse accepts (no host name with a port, bracketed IPv6 with and
+// without port / zone, IPv4, host names with and without port, userinfo, trailing dot, relative, scheme-less).
+var URLShapes = []string{"http://127.0.0.1:9095", "http://127.0.0.1:9096", "https://127.0.0.1:8443/x", "127.0.0.1:80", "http://[::1]:8080",
+	"http://localhost", "/rel", "http://]", "http://:8080", "https://:443", "http://:", "//:80", "http://[::1]", "http://[fe80::1%25lo]:80",
+	"http://user:pw@127.0.0.1:9095", "http://user@:80", "http://example.com.", "http://example.com.:80", "http://127.0.0.1", "http://a", "http://",
+	"http://[::ffff:10.0.0.1]:80", "http://[]:80", "http://0:80"}
